@@ -184,7 +184,7 @@ def check(ctx, world):
                 continue
             tgt = world.static_lookup(mod, c.func.id) if isinstance(c.func, ast.Name) else None
             if isinstance(tgt, FuncV) and tgt.qual in dedicated:
-                isl = f is not None and ev.policy.classify(f) == "recursive"
+                isl = f is not None and gm.is_ladder_function(world, ev, f)
                 if isl:
                     fast_ladders.add(fq)
                 ctx.ob("P6-caller", "%s <- %s" % (tgt.qual, fq), isl,
@@ -194,7 +194,7 @@ def check(ctx, world):
             for a in list(c.args) + [k.value for k in c.keywords]:
                 av = world.static_lookup(mod, a.id) if isinstance(a, ast.Name) else None
                 if isinstance(av, FuncV) and av.qual in dedicated:
-                    isl = isinstance(tgt, FuncV) and ev.policy.classify(tgt) == "recursive" and a in c.args[2:]
+                    isl = isinstance(tgt, FuncV) and gm.is_ladder_function(world, ev, tgt) and a in c.args[2:]
                     if isl:
                         fast_ladders.add(fq)
                     ctx.ob("P6-caller", "%s <- %s" % (av.qual, fq), isl,
@@ -217,9 +217,9 @@ def check(ctx, world):
         """a logged opaque call that reaches the dedicated addition: a ladder that calls it or a ladder it is passed to"""
         if rec[0] != "opaque-call":
             return False
-        if rec[1].qual in fast_ladders and ev.policy.classify(rec[1]) == "recursive":
+        if rec[1].qual in fast_ladders and gm.is_ladder_function(world, ev, rec[1]):
             return True
-        return ev.policy.classify(rec[1]) == "recursive" and any(isinstance(a, FuncV) and a.qual in dedicated for a in rec[2][2:])
+        return gm.is_ladder_function(world, ev, rec[1]) and any(isinstance(a, FuncV) and a.qual in dedicated for a in rec[2][2:])
     L = None
     _, G = gm.group_classes(world, ev)
     oo = session.rets(ev.run_method(G, "order", [], st=world.static.fork()))
